@@ -34,6 +34,23 @@ fn imm_alphabet() -> Vec<i32> {
     v
 }
 
+/// Every skeleton of `n` slots whose first slot is `first` (see isaeng layer 3).
+pub fn skeletons_from(n: usize, first: crate::isaeng::Slot, f: &mut dyn FnMut(&[crate::isaeng::Slot])) {
+    fn rec(n: usize, cur: &mut Vec<crate::isaeng::Slot>, f: &mut dyn FnMut(&[crate::isaeng::Slot])) {
+        if cur.len() == n {
+            f(cur);
+            return;
+        }
+        for c in crate::isaeng::slot_choices(cur.len(), n, true) {
+            cur.push(c);
+            rec(n, cur, f);
+            cur.pop();
+        }
+    }
+    let mut cur = vec![first];
+    rec(n, &mut cur, f);
+}
+
 // ==========================================================================================
 // C17
 
@@ -537,7 +554,7 @@ fn c17_builder(s: &mut Sink, g: &mut u64) {
     if s.take(idx) {
         let mut n = 0u64;
         for a in 0..ctors.len() {
-            for b in [0usize, 7, 50, ctors.len() - 1] {
+            for b in 0..ctors.len() {
                 let mut code = rbpf::insn_builder::BpfCode::new();
                 build_with(&mut code, ctors[a], 1, 2, 3, 4);
                 build_with(&mut code, ctors[b], 5, 6, -7, -8);
@@ -554,7 +571,7 @@ fn c17_builder(s: &mut Sink, g: &mut u64) {
         s.count("distinct_nontrivial", n);
     }
     if !s.expired() {
-        s.done("builder constructors x fields; builder vs encoder vs assembler; 3-instruction order");
+        s.done("builder constructors x fields; builder vs encoder vs assembler; every ordered pair of constructors (a, b, a) on one BpfCode");
     }
 }
 
@@ -770,7 +787,7 @@ fn c15_check_prog(s: &mut Sink, insns: &[I], class: &str) -> u64 {
         }
         if let Some((sym, det)) = c15_check_entry(&entries[n], i, hi) {
             let m = isa::mnemonic(i).unwrap_or_default();
-            s.violation(&format!("disasm/{m}/{sym}"), format!("insn {:?}: {det}", i), json!({"kind":"disasm","prog":hex(&isa::enc(if hi.is_some() { &insns[k..k + 2] } else { &insns[k..k + 1] }))}));
+            s.violation(&format!("disasm/{m}/{sym}"), format!("insn {:?}: {det}", i), json!({"kind":"disasm","prog":hex(&isa::enc(if insns.len() <= 16 { insns } else if hi.is_some() { &insns[k..k + 2] } else { &insns[k..k + 1] }))}));
         }
         checked += 1;
         n += 1;
@@ -851,6 +868,60 @@ pub fn run_c15(s: &mut Sink) {
     }
     if !s.expired() {
         s.done("opcode x nibbles x offsets x immediates");
+    }
+    // dense immediates: every value in -300..=300 (helper numbers, small constants) for every opcode
+    for &opc in &ops {
+        let k = isa::kind(opc).unwrap();
+        let idx = g;
+        g += 1;
+        if !s.take(idx) {
+            continue;
+        }
+        if matches!(k, Kind::LdDw) {
+            continue;
+        }
+        let mut n = 0u64;
+        for imm in -300i32..=300 {
+            for off in [0i16, -5] {
+                let mut p = Vec::with_capacity(256);
+                for dst in 0..16u8 {
+                    for src in 0..16u8 {
+                        if matches!(k, Kind::Call) && src > 1 {
+                            continue;
+                        }
+                        p.push(I::new(opc, dst, src, off, imm));
+                    }
+                }
+                n += c15_check_prog(s, &p, &isa::mnemonic(&p[0]).unwrap());
+            }
+        }
+        s.count("evaluations", n);
+        s.count("distinct_nontrivial", n);
+    }
+    s.done("every immediate in -300..=300 x opcode x nibbles");
+    // control-flow skeletons: every placement of jumps / local calls / wide loads in programs of
+    // n slots (the slot grammar of the isa engine's layer 3), every displacement inside the program
+    {
+        let nmax = if thorough { 5 } else { 4 };
+        for nslots in 1..=nmax {
+            let firsts = crate::isaeng::slot_choices(0, nslots, true);
+            for f in firsts {
+                let idx = g;
+                g += 1;
+                if !s.take(idx) {
+                    continue;
+                }
+                let mut n = 0u64;
+                skeletons_from(nslots, f, &mut |sk| {
+                    if let Some(p) = crate::isaeng::skeleton_program(sk) {
+                        n += c15_check_prog(s, &p, "skeleton");
+                    }
+                });
+                s.count("evaluations", n);
+                s.count("distinct_nontrivial", n);
+            }
+        }
+        s.done(&format!("control-flow skeletons of 1..={nmax} slots (jumps, local calls and wide loads in every relative position)"));
     }
     // full 2^32 immediates for one opcode per renderer shape (thorough)
     if thorough {
@@ -1230,6 +1301,86 @@ pub fn run_c13(s: &mut Sink) {
     if !s.expired() {
         s.done("sequences of 2 (all mnemonic pairs) and 3 (reduced) instructions");
     }
+    // (4) whitespace: every gap where the syntax allows blanks (before the first instruction, after
+    // the mnemonic, after each comma, after the operand list / between instructions) x every blank
+    // string of the alphabet, for one instruction per operand form followed by `exit`
+    {
+        const WS: [&str; 8] = ["", " ", "\t", "\n", "\r\n", "\r", "  ", " \t\n"];
+        let mut seen_forms = std::collections::HashSet::new();
+        for m in &mns {
+            let idx = g;
+            g += 1;
+            // one mnemonic per form (decided identically in every shard)
+            if !seen_forms.insert(std::mem::discriminant(&m.form)) && !(thorough && m.name.len() % 3 == 0) {
+                continue;
+            }
+            if !s.take(idx) {
+                continue;
+            }
+            let ops: Vec<Op> = match m.form {
+                Form::AluBin => vec![Op::R(1), Op::N(-2)],
+                Form::AluUn | Form::Endian(_) => vec![Op::R(3)],
+                Form::LdImm => vec![Op::R(4), Op::N(0x1122334455667788)],
+                Form::LdAbs | Form::Call | Form::Callx => vec![Op::N(7)],
+                Form::LdInd => vec![Op::R(5), Op::N(8)],
+                Form::LdReg => vec![Op::R(6), Op::M(7, -4)],
+                Form::StReg => vec![Op::M(8, 12), Op::R(9)],
+                Form::StImm => vec![Op::M(10, 0), Op::N(-9)],
+                Form::Ja => vec![Op::N(3)],
+                Form::Jcc => vec![Op::R(1), Op::N(2), Op::N(-3)],
+                Form::NoOp => vec![],
+            };
+            let Some(enc) = asmref::encode(m, &ops) else { continue };
+            let mut want = isa::enc(&enc);
+            want.extend(isa::enc(&[isa::EXIT]));
+            let opstrs: Vec<String> = ops.iter().map(|o| join_ops(std::slice::from_ref(o), Spell::Dec, ", ", false)).collect();
+            let ngaps = 2 + ops.len().max(1); // lead, after-mnemonic, after each comma (ops-1), trailing
+            let mut n = 0u64;
+            let mut choice = vec![0usize; ngaps];
+            'outer: loop {
+                // build the text
+                let lead = WS[choice[0]];
+                let after_mn = WS[choice[1]];
+                let trail = WS[choice[ngaps - 1]];
+                // a blank is required between the mnemonic and an operand that starts with a letter
+                // or digit, and between the last operand (or a bare mnemonic) and the next mnemonic
+                let needs_sep_mn = !ops.is_empty() && opstrs[0].chars().next().map_or(false, |c| c.is_alphanumeric());
+                if !((needs_sep_mn && after_mn.is_empty()) || trail.is_empty() || (ops.is_empty() && choice[1] != 0)) {
+                    let mut text = String::new();
+                    text.push_str(lead);
+                    text.push_str(&m.name);
+                    text.push_str(after_mn);
+                    for (k, o) in opstrs.iter().enumerate() {
+                        if k > 0 {
+                            text.push(',');
+                            text.push_str(WS[choice[1 + k]]);
+                        }
+                        text.push_str(o);
+                    }
+                    text.push_str(trail);
+                    text.push_str("exit");
+                    c13_check(s, &text, &Some(want.clone()), &format!("whitespace:{}", m.name));
+                    n += 1;
+                }
+                // next choice vector
+                let mut k = 0;
+                loop {
+                    choice[k] += 1;
+                    if choice[k] < WS.len() {
+                        break;
+                    }
+                    choice[k] = 0;
+                    k += 1;
+                    if k == ngaps {
+                        break 'outer;
+                    }
+                }
+            }
+            s.count("evaluations", n);
+            s.count("distinct_nontrivial", n);
+        }
+        s.done("whitespace: every gap x 8 blank strings (space, tab, LF, CR LF, CR, runs) for one instruction per operand form");
+    }
     // empty source
     if s.take(g) {
         c13_check(s, "", &Some(vec![]), "empty");
@@ -1447,6 +1598,54 @@ pub fn run_c14(s: &mut Sink) {
         s.done("token sequences");
     }
     s.sample("tokens", || json!({"text": "lddw r1, -0x8000000000000000"}));
+    // (iii) every character of a wide alphabet inserted at every position of base texts: one
+    // insertion (all characters) and two insertions (all characters x the punctuation / non-ASCII
+    // subset; thorough: all x all)
+    let mut wide: Vec<char> = (0u8..128).map(|b| b as char).collect();
+    wide.extend(['\u{a0}', '\u{e9}', '\u{3b1}', '\u{20ac}', '\u{3000}', '\u{301}', '\u{1f600}', '\u{feff}', '\u{2028}']);
+    let sub: Vec<char> = wide.iter().copied().filter(|c| !c.is_ascii_alphanumeric() && !c.is_ascii_control() || *c == '\n' || *c == '\t' || *c == '\r' || *c == '0' || *c == 'r' || *c == 'x').collect();
+    let bases = ["mov r0, 1\nexit", "ldxw r1, [r2+4]", "lddw r3, -0x10", "jeq r1, 2, +3", "exit"];
+    for (bi, base) in bases.iter().enumerate() {
+        let chars: Vec<char> = base.chars().collect();
+        for pos in 0..=chars.len() {
+            let idx = g;
+            g += 1;
+            if !s.take(idx) {
+                continue;
+            }
+            if s.expired() {
+                s.cut("insertions");
+                break;
+            }
+            let mut n = 0u64;
+            let class = format!("insert:base{bi}");
+            for c1 in &wide {
+                let mut t1: Vec<char> = chars.clone();
+                t1.insert(pos, *c1);
+                let text: String = t1.iter().collect();
+                c14_check(s, &text, &class);
+                n += 1;
+                let second: &Vec<char> = if thorough { &wide } else { &sub };
+                if !thorough && !sub.contains(c1) {
+                    continue;
+                }
+                for pos2 in (pos + 1)..=t1.len() {
+                    for c2 in second {
+                        let mut t2 = t1.clone();
+                        t2.insert(pos2, *c2);
+                        let text: String = t2.iter().collect();
+                        c14_check(s, &text, &class);
+                        n += 1;
+                    }
+                }
+            }
+            s.count("evaluations", n);
+            s.count("distinct_nontrivial", n);
+        }
+    }
+    if !s.expired() {
+        s.done("one and two character insertions (128 ASCII + 9 non-ASCII characters) at every position of 5 base texts");
+    }
 }
 
 pub fn replay_asm_total(v: &Value) -> Vec<String> {
@@ -1635,6 +1834,54 @@ pub fn run_c16(s: &mut Sink) {
     }
     if !s.expired() {
         s.done("single instructions");
+    }
+    // dense immediates -300..=300 for every opcode (two register/offset combinations)
+    for &opc in &ops {
+        let k = isa::kind(opc).unwrap();
+        let idx = g;
+        g += 1;
+        if !s.take(idx) {
+            continue;
+        }
+        if matches!(k, Kind::LdDw) {
+            continue;
+        }
+        let class = isa::mnemonic(&I::new(opc, 0, 0, 0, 16)).unwrap();
+        let (ud, us, uo, _) = isa::uses(k);
+        let mut n = 0u64;
+        for imm in -300i32..=300 {
+            for (d, sr, off) in [(1u8, 2u8, 0i16), (9, 10, -3)] {
+                let sr = if matches!(k, Kind::Call) { sr & 1 } else { sr };
+                c16_check(s, &[I::new(opc, if ud { d } else { 0 }, if us { sr } else { 0 }, if uo { off } else { 0 }, imm)], &class);
+                n += 1;
+            }
+        }
+        s.count("evaluations", n);
+        s.count("distinct_nontrivial", n);
+    }
+    s.done("every immediate in -300..=300 x opcode");
+    // control-flow skeletons (see C15): jumps, local calls and wide loads in every relative position
+    {
+        let nmax = if thorough { 5 } else { 4 };
+        for nslots in 1..=nmax {
+            for f in crate::isaeng::slot_choices(0, nslots, true) {
+                let idx = g;
+                g += 1;
+                if !s.take(idx) {
+                    continue;
+                }
+                let mut n = 0u64;
+                skeletons_from(nslots, f, &mut |sk| {
+                    if let Some(p) = crate::isaeng::skeleton_program(sk) {
+                        c16_check(s, &p, "skeleton");
+                        n += 1;
+                    }
+                });
+                s.count("evaluations", n);
+                s.count("distinct_nontrivial", n);
+            }
+        }
+        s.done(&format!("control-flow skeletons of 1..={nmax} slots"));
     }
     // sequences of 2 and 3 over a reduced set
     let atoms: Vec<Vec<I>> = vec![
